@@ -2,6 +2,8 @@ import Hgxv.Proofs.C20
 import Hgxv.Proofs.C20Reads
 import Hgxv.Proofs.C20Eigen
 import Hgxv.Proofs.C20Cent
+import Hgxv.Proofs.C20CentSum
+import Hgxv.Proofs.C20CentHG
 /-! # C20 - centralities are the advertised functionals of the hypergraph's projections  (PARTIAL by nature)
 
 Proved here: the glue of `hypergraphx/measures/s_centralities.py` for EVERY centrality routine
@@ -487,6 +489,17 @@ theorem C20_dist_metric {V : Type} [DecidableEq V] (g : Graph V) (s u t : V) :
 example : let g : Graph Nat := { verts := [0, 1, 2, 3, 4], edges := [(0, 1), (1, 2), (0, 3), (3, 2)] }
     dist g 1 3 = some 2 ∧ dist g 3 1 = some 2 ∧ dist g 1 0 = some 1 ∧ dist g 0 3 = some 1 ∧ dist g 4 0 = none := by decide +kernel
 
+/-- ... and the bound `< |V|` on the walk lengths that `levels` explores loses nothing (a shortest walk visits pairwise different
+vertices): `dist g s v = some d` iff `d` is the length of a shortest walk from `s` to `v` among walks of ANY length, `none` iff
+there is no walk at all. -/
+theorem C20_dist_unbounded {V : Type} [DecidableEq V] (g : Graph V) (s v : V) :
+    (∀ d, dist g s v = some d ↔ reachIn g s d v ∧ ∀ j, j < d → ¬ reachIn g s j v) ∧
+    (dist g s v = none ↔ ∀ k, ¬ reachIn g s k v) :=
+  ⟨dist_spec' g s v, dist_none' g s v⟩
+
+example : let g : Graph Nat := { verts := [0, 1, 2, 3, 4], edges := [(0, 1), (1, 2), (0, 3), (3, 2)] }
+    dist g 0 2 = some 2 ∧ dist g 0 4 = none := by decide +kernel
+
 /-- `nx.closeness_centrality(G)[v]` (Wasserman-Faust, as `s_closeness` calls it): with `D` the distances from `v` to the vertices it
 reaches (itself included), the value is `(|D|-1)/ΣD · (|D|-1)/(n-1)`, and 0 when nothing else is reached or `n ≤ 1`. -/
 theorem C20_closeness_formula {V : Type} [DecidableEq V] (g : Graph V) (v : V) :
@@ -575,3 +588,76 @@ theorem C20_memberless_value {α : Type} [DecidableEq α] (srt : List α → Lis
 example : let H : HG Nat := { nodes := [0, 1, 2, 3, 4, 5], edges := [[0, 1, 2], [2, 3], [3, 4, 5], [5], []] }
     H.edges[4]? = some [] ∧ closeness (lineGraph id H 1) 4 = 0 ∧ closeness (lineGraph id H 1) 1 = 9 / 16 := by decide +kernel
 
+/-- Chapman-Kolmogorov for the walk counts (vertex list duplicate-free, as in every networkx graph): a walk of length `a + b`
+from `s` to `t` splits at its `a`-th vertex. This is what makes `σ_sv · σ_vt` the number of shortest `s`-`t` paths through `v`. -/
+theorem C20_walk_split {V : Type} [DecidableEq V] (g : Graph V) (hn : g.verts.Nodup) (s t : V) (a b : Nat) :
+    walkCount g s (a + b) t = (g.verts.map fun v => walkCount g s a v * walkCount g v b t).sum :=
+  walkCount_add g hn s t a b
+
+example : let g : Graph Nat := { verts := [0, 1, 2, 3, 4], edges := [(0, 1), (1, 2), (0, 3), (3, 2), (2, 4)] }
+    g.verts.Nodup ∧ walkCount g 0 3 4 = 2 ∧ walkCount g 0 2 2 = 2 ∧ walkCount g 2 1 4 = 1 := by decide +kernel
+
+/-- **Sum identity for one pair.** `s ≠ t` at distance `d`: the pair dependencies `σ_st(v)/σ_st` (`pairDep`, the summand of
+`nx.betweenness_centrality`) of all OTHER vertices add up to `d - 1` - every shortest path has `d - 1` inner vertices; and every
+pair dependency of an unreachable pair is 0. -/
+theorem C20_pair_dependency_sum {V : Type} [DecidableEq V] (g : Graph V) (hn : g.verts.Nodup) (s t : V) (hst : s ≠ t) :
+    (∀ d, dist g s t = some d →
+      (((g.verts.filter (· ≠ s)).filter (· ≠ t)).map fun v => pairDep (levels g s) (levels g v) v t).sum = ((d - 1 : Nat) : Rat)) ∧
+    (dist g s t = none → ∀ v, pairDep (levels g s) (levels g v) v t = 0) :=
+  ⟨fun d hd => pairDep_sum g hn s t hst d hd, fun hd v => pairDep_unreachable g s t v hd⟩
+
+example : let g : Graph Nat := { verts := [0, 1, 2, 3, 4], edges := [(0, 1), (1, 2), (0, 3), (3, 2), (2, 4)] }
+    dist g 0 4 = some 3 ∧ pairDep (levels g 0) (levels g 1) 1 4 = 1 / 2 ∧ pairDep (levels g 0) (levels g 3) 3 4 = 1 / 2 ∧
+    pairDep (levels g 0) (levels g 2) 2 4 = 1 := by decide +kernel
+
+/-- **Sum identity for betweenness.** The values `nx.betweenness_centrality` gives to ALL vertices add up to the sum over the ordered
+pairs `s ≠ t` of connected vertices of `d(s,t) - 1` (`pairInner`), divided by `(n-1)(n-2)` when `n ≥ 3` (networkx's normalisation). -/
+theorem C20_betweenness_sum {V : Type} [DecidableEq V] (g : Graph V) (hn : g.verts.Nodup) :
+    (g.verts.map (betweenness g)).sum =
+      if 3 ≤ g.verts.length then
+        (g.verts.map fun s => ((g.verts.filter (· ≠ s)).map fun t => pairInner g s t).sum).sum
+          / (((g.verts.length - 1) * (g.verts.length - 2) : Nat) : Rat)
+      else (g.verts.map fun s => ((g.verts.filter (· ≠ s)).map fun t => pairInner g s t).sum).sum :=
+  betweenness_sum g hn
+
+example : let g : Graph Nat := { verts := [0, 1, 2, 3], edges := [(0, 1), (1, 2), (2, 3)] }
+    g.verts.map (betweenness g) = [0, 2 / 3, 2 / 3, 0] ∧
+    (g.verts.map fun s => ((g.verts.filter (· ≠ s)).map fun t => pairInner g s t).sum).sum = 8 := by decide +kernel
+
+/-- the hypothesis of the two sum identities and of `closeness ≤ 1` holds for both projections of every hypergraph -/
+theorem C20_projection_verts_nodup {α : Type} [DecidableEq α] (srt : List α → List α) (H : HG α) (s : Nat) :
+    (lineGraph srt H s).verts.Nodup ∧ (bipGraph srt H).verts.Nodup :=
+  ⟨lineGraph_verts_nodup srt H s, bipGraph_verts_nodup srt H⟩
+
+/-- ranges: betweenness and closeness are never negative, closeness is at most 1 -/
+theorem C20_value_ranges {V : Type} [DecidableEq V] (g : Graph V) (v : V) :
+    0 ≤ betweenness g v ∧ 0 ≤ closeness g v ∧ (g.verts.Nodup → closeness g v ≤ 1) :=
+  ⟨betweenness_nonneg g v, closeness_nonneg g v, fun hn => closeness_le_one g hn v⟩
+
+example : let g : Graph Nat := { verts := [0, 1, 2], edges := [(0, 1), (1, 2)] }
+    g.verts.Nodup ∧ closeness g 1 = 1 ∧ closeness g 0 = 2 / 3 := by decide +kernel
+
+/-- what "neighbour" means in the two projections, in terms of the hypergraph: in the s-line graph `i ≠ j` are neighbours iff the
+hyperedges number `i`, `j` are `linked` (≥ max(1, s) common nodes); in the bipartite projection `E<j>` is a neighbour of `N<i>` iff
+hyperedge number `j` has a member at position `i` of `get_nodes()`. With `C20_dist_spec` this makes the distances inside
+`s_closeness` / `s_betweenness` lengths of shortest s-walks of hyperedges, resp. of node-hyperedge incidence walks. -/
+theorem C20_adjacency_hypergraph {α : Type} [DecidableEq α] (srt : List α → List α) (H : HG α) (s i j : Nat) :
+    (j ∈ nbrs (lineGraph srt H s) i ↔
+      j < H.edges.length ∧ j ≠ i ∧ ∃ a b, (H.edges.map srt)[i]? = some a ∧ (H.edges.map srt)[j]? = some b ∧
+        (if i < j then linked s a b else linked s b a) = true) ∧
+    (nameE j ∈ nbrs (bipGraph srt H) (nameN i) ↔ ∃ e x, H.edges[j]? = some e ∧ x ∈ srt e ∧ H.nodes.idxOf x = i) :=
+  ⟨mem_nbrs_lineGraph srt H s i j, mem_nbrs_bipGraph srt H i j⟩
+
+example : let H : HG Nat := { nodes := [5, 6, 7, 8], edges := [[5, 6, 7], [7, 8], [6, 7, 8]] }
+    nbrs (lineGraph id H 2) 2 = [0, 1] ∧ nbrs (lineGraph id H 2) 0 = [2] ∧
+    nbrs (bipGraph id H) (nameN 3) = [nameE 1, nameE 2] := by decide +kernel
+
+/-- both routines are carried along unchanged by an injective relabelling of the vertices of ANY graph (vertex list and edge
+list mapped through `f`) -/
+theorem C20_nx_relabel {V W : Type} [DecidableEq V] [DecidableEq W] (f : V → W) (hf : Function.Injective f) (g : Graph V) (v : V) :
+    closeness (g.map f) (f v) = closeness g v ∧ betweenness (g.map f) (f v) = betweenness g v :=
+  ⟨closeness_map f hf g v, betweenness_map f hf g v⟩
+
+example : let g : Graph Nat := { verts := [0, 1, 2, 3], edges := [(0, 1), (1, 2), (2, 3)] }
+    betweenness (g.map (· + 10)) 11 = betweenness g 1 ∧ (g.map (· + 10)).edges = [(10, 11), (11, 12), (12, 13)] :=
+  ⟨(C20_nx_relabel (· + 10) (fun a b h => by simpa using h) _ 1).2, rfl⟩
